@@ -39,6 +39,9 @@ pub struct C07Case {
     /// these calls, as a block waiting for something outside the graph does
     #[serde(default)]
     pub pending: Option<(u8, u8, u8)>,
+    /// cancel plans: cancel() is called (and has returned) before run() is entered
+    #[serde(default)]
+    pub pre_cancel: bool,
 }
 
 /// No runner may ask for one uninterruptible sleep longer than this: the cancellation token
@@ -95,7 +98,15 @@ fn scenario(c: &C07Case, out: Arc<Mutex<Outcome>>) {
         o.n = n;
         o.names = names;
     }
-    let canceller = if let Some(delay) = cancel_delay {
+    if cancel_delay.is_some() && c.pre_cancel {
+        // "at any moment" includes the moment before run(): a handler that fired early
+        g.cancel_token().cancel();
+        shared.cancelled.store(true, Ordering::SeqCst);
+        out.lock().unwrap().cancel_done = true;
+    }
+    let canceller = if c.pre_cancel {
+        None
+    } else if let Some(delay) = cancel_delay {
         let tok = g.cancel_token();
         let sh = shared.clone();
         let o2 = out.clone();
@@ -138,8 +149,8 @@ impl Prop for C07 {
             1 => (prop_oneof![Just(0xffffu16), any::<u16>()], 1u8..4).prop_map(|(mask, k)| Fault::FailMany { mask, k }),
         ];
         let pending = prop_oneof![2 => Just(None), 1 => (any::<u8>(), 1u8..6, 1u8..30).prop_map(Some)];
-        (recipe_strategy(tier.pick(12_000, 30_000) as u32), any::<bool>(), fault, any::<bool>(), decisions_strategy(tier.pick(400, 1500) as usize), pending)
-            .prop_map(|(recipe, mt, fault, endless, decisions, pending)| C07Case { recipe, mt, fault, endless, decisions, pending })
+        (recipe_strategy(tier.pick(12_000, 30_000) as u32), any::<bool>(), fault, any::<bool>(), decisions_strategy(tier.pick(400, 1500) as usize), pending, prop::bool::weighted(0.15))
+            .prop_map(|(recipe, mt, fault, endless, decisions, pending, pre_cancel)| C07Case { recipe, mt, fault, endless, decisions, pending, pre_cancel })
             .boxed()
     }
     fn cases(&self, tier: Tier) -> u64 {
@@ -175,6 +186,9 @@ impl Prop for C07 {
                 );
             }
             return;
+        }
+        if case.pre_cancel && matches!(case.fault, Fault::Cancel { .. } | Fault::Both { .. }) {
+            ctx.class("cancelled before run() was entered");
         }
         if case.mt && case.pending.is_some() {
             ctx.class("a block answers Pending for a while");
@@ -312,7 +326,7 @@ impl Prop for C07 {
         }
     }
     fn rule(&self) -> String {
-        "generated: both runners x graph recipe (as C06) x fault plan: cancel, fail, several failing blocks (up to every block of the graph), or cancel and fail at once (the failing call passes 0-5 scheduling points before it returns while the canceller runs: a failure must be reported even if cancellation was requested during the failing call); cancel (a canceller task calls cancel() after d of its own scheduling points: before run, during work calls, while everybody waits) or fail (a wrapper block at a generated position returns Err('injected#p') on its k-th call, k in 1..6) x scheduler decision stream; run() executes on the shuttle runtime (for Graph too, so that the canceller interleaves at every stream lock). Oracle: cancel => run() returns, returns Ok, per block at most 1 work() call started after cancel() had returned, and (MTGraph) every block has been dropped; fail => run() returns Err whose text contains the injected marker; a panic, Ok, a different error or non-return is a violation. Non-trivial: the failing block is neither first nor last, or the cancellation landed after blocks had started working; distinct = hash of (recipe, fault, decisions).".into()
+        "generated: both runners x graph recipe (as C06) x fault plan: cancel, fail, several failing blocks (up to every block of the graph), or cancel and fail at once (the failing call passes 0-5 scheduling points before it returns while the canceller runs: a failure must be reported even if cancellation was requested during the failing call); cancel (a canceller task calls cancel() after d of its own scheduling points: during work calls, while everybody waits; in 15% of the cancel plans cancel() has returned before run() is entered) or fail (a wrapper block at a generated position returns Err('injected#p') on its k-th call, k in 1..6) x scheduler decision stream; run() executes on the shuttle runtime (for Graph too, so that the canceller interleaves at every stream lock). Oracle: cancel => run() returns, returns Ok, per block at most 1 work() call started after cancel() had returned, and (MTGraph) every block has been dropped; fail => run() returns Err whose text contains the injected marker; a panic, Ok, a different error or non-return is a violation. Non-trivial: the failing block is neither first nor last, or the cancellation landed after blocks had started working; distinct = hash of (recipe, fault, decisions).".into()
     }
     fn assumptions(&self) -> Vec<String> {
         vec![
